@@ -29,6 +29,13 @@ from .gaussian_process_train import (
 from .optimize_result import OptimizeResult
 from .options import Options
 
+# Verification hook (off by default): when the environment variable
+# PYBADS_VERIF=1 is set at import time and a callable is stored in
+# ``_verif_probe``, it is called at the end of every main-loop iteration of
+# ``BADS.optimize``. It has no effect otherwise.
+_VERIF_ON = os.environ.get("PYBADS_VERIF") == "1"
+_verif_probe = None
+
 
 class BADS:
     """
@@ -1420,6 +1427,19 @@ class BADS:
                     # Iteration corresponds to the number of polling iterations
                     poll_iteration += 1
                     self.optim_state["iter"] = poll_iteration
+
+            if _VERIF_ON and _verif_probe is not None:
+                _verif_probe(
+                    self,
+                    {
+                        "loop_iter": loop_iter,
+                        "poll_iteration": poll_iteration,
+                        "did_search": bool(do_search_step_flag),
+                        "did_poll": bool(do_poll_step),
+                        "is_finished": bool(is_finished),
+                        "msg": msg,
+                    },
+                )
 
             loop_iter += 1
 
